@@ -198,6 +198,7 @@ def r13_2(ctx):
     # roles from initialisation
     lower = upper = index = None
     table_name = None
+    upper_is_len = None
     for n in walk_local(f.node):
         if isinstance(n, ast.Assign) and len(n.targets) == 1 and isinstance(n.targets[0], ast.Name):
             v = n.value
@@ -211,12 +212,23 @@ def r13_2(ctx):
                 lc = [c_ for c_ in ast.walk(v) if isinstance(c_, ast.Call) and call_name(c_) == "len"][0]
                 upper = name
                 table_name = norm(lc.args[0])
-                ctx.violation(f.fq, norm(n), f"{f.module.relpath}:{n.lineno}",
-                              f"the search's upper bound starts at `{norm(v)}`, not at the last index len(table) - 1: a code point above the last table entry probes past the end of the table (IndexError) or skips entries")
+                upper_is_len = (n, v)
     if lower is None or upper is None:
         if _bisect_form(ctx, f, cp):
             return
         raise AnalysisError("cannot identify lower/upper bound variables of the search")
+    # closed interval [lower, upper] (upper starts at len - 1, loop until upper < lower) or half-open [lower, upper) (upper starts at
+    # len, `while lower < upper`, `upper = index` below): an upper bound of len(table) is wrong only for the closed form
+    half_open = False
+    if upper_is_len is not None:
+        n_, v_ = upper_is_len
+        wl = [w for w in walk_local(f.node) if isinstance(w, ast.While) and norm(w.test) in (f"{lower} < {upper}", f"{upper} > {lower}")]
+        if norm(v_) == f"len({table_name})" and len(wl) == 1:
+            half_open = True
+            ctx.ok(f"{f.module.relpath}:{n_.lineno}", "half-open search interval [lower, upper) with upper = len(table) and `while lower < upper`", f.fq)
+        else:
+            ctx.violation(f.fq, norm(n_), f"{f.module.relpath}:{n_.lineno}",
+                          f"the search's upper bound starts at `{norm(v_)}`, not at the last index len(table) - 1: a code point above the last table entry probes past the end of the table (IndexError) or skips entries")
     tbl = aliases.get(table_name)
     ctx.check(table_name == "CELL_WIDTHS" or (tbl is not None and norm(tbl) == "CELL_WIDTHS"), f.fq, f"table {table_name}", f.where,
               "search runs over CELL_WIDTHS", f"search table `{table_name}` is not CELL_WIDTHS")
@@ -283,7 +295,10 @@ def r13_2(ctx):
                     detail = "augmented assignment"
                 else:
                     c = form.get("", 0)
-                    ok = form.get(idx_name) == 1 and set(form) <= {idx_name, ""} and c * sign >= 1
+                    if half_open and kind == "below":
+                        ok = form.get(idx_name) == 1 and set(form) <= {idx_name, ""} and c == 0  # upper is exclusive: upper = index
+                    else:
+                        ok = form.get(idx_name) == 1 and set(form) <= {idx_name, ""} and c * sign >= 1
                     detail = f"{want} = {show(form)}"
             ctx.check(ok, f.fq, f"if {norm(n.test)}: {detail or sorted(stores)}", where,
                       f"code point {kind} the probed range: only `{want}` moves, strictly past index ({detail})",
@@ -311,16 +326,41 @@ def r13_2(ctx):
                           f"hit branch returns {sorted(vals)} (width, result): not the table width")
                 seen.add("hit")
 
-    for n in walk_local(f.node):
+    # guard clauses are the chain they abbreviate:  `if A: X; continue` followed by R  is  `if A: X; continue / else: R`, and
+    # `if T: return a` followed by `return b` is `return a if T else b` - the cases are read off that nested form
+    import copy as _copy
+
+    def _nest(stmts):
+        out = []
+        for i, st in enumerate(stmts):
+            for fld in ("body", "orelse"):
+                sub = getattr(st, fld, None)
+                if isinstance(sub, list) and sub and isinstance(sub[0], ast.stmt) and not isinstance(st, (ast.FunctionDef, ast.ClassDef)):
+                    setattr(st, fld, _nest(sub))
+            rest = stmts[i + 1:]
+            if isinstance(st, ast.If) and not st.orelse and st.body and isinstance(st.body[-1], (ast.Continue, ast.Return, ast.Break)) and rest:
+                st.orelse = _nest(rest)
+                if len(st.body) == 1 and isinstance(st.body[0], ast.Return) and len(st.orelse) == 1 and isinstance(st.orelse[0], ast.Return) and st.body[0].value is not None and st.orelse[0].value is not None:
+                    out.append(ast.copy_location(ast.Return(value=ast.copy_location(ast.IfExp(test=st.test, body=st.body[0].value, orelse=st.orelse[0].value), st)), st))
+                else:
+                    out.append(st)
+                return out
+            out.append(st)
+        return out
+    fnode2 = _copy.deepcopy(f.node)
+    for lp_ in [x for x in ast.walk(fnode2) if isinstance(x, (ast.While, ast.For))]:
+        lp_.body = _nest(lp_.body)
+    nodes2 = [x for x in ast.walk(fnode2)]
+    for n in nodes2:
         if isinstance(n, ast.If) and classify(n.test) in ("below", "above") and not any(
-            isinstance(p, ast.If) and n in p.orelse for p in walk_local(f.node)
+            isinstance(p, ast.If) and n in p.orelse for p in nodes2
         ):
             visit_if(n, [])
     for k in ("below", "above", "hit"):
         if k not in seen:
             ctx.violation(f.fq, f"missing {k} case", f.where, f"search has no `{k}` case comparing the code point with the probed range")
     # every other return of the lookup is a constant in {0,1,2} or the normalised hit value
-    for r in walk_local(f.node):
+    for r in nodes2:
         if isinstance(r, ast.Return) and r.value is not None:
             v = r.value
             if const_int(v) in (0, 1, 2):
@@ -346,6 +386,9 @@ def r13_2(ctx):
                 term = True
                 good = (l == upper and isinstance(op, ast.Lt)) or (l == lower and isinstance(op, ast.Gt)) or \
                        (isinstance(n, ast.While) and ((l == lower and isinstance(op, ast.LtE)) or (l == upper and isinstance(op, ast.GtE))))
+                if half_open:
+                    # [lower, upper) is non-empty exactly while lower < upper
+                    good = isinstance(n, ast.While) and ((l == lower and isinstance(op, ast.Lt)) or (l == upper and isinstance(op, ast.Gt)))
                 ctx.check(good, f.fq, norm(n.test), f"{f.module.relpath}:{n.lineno}", "loop ends exactly when the interval is empty",
                           f"termination test `{norm(n.test)}` stops while candidates remain or never stops")
     ctx.check(term, f.fq, "termination test", f.where, "interval-empty test present", "no interval-empty termination test found")
